@@ -693,38 +693,25 @@ func c03NewEdge(c *kit.Ctx, m *storeModel, hm *hashModel, r5 *kit.Rule) {
 	type fold struct {
 		name  string
 		match func(s *kit.SQLSite) bool
-		// xor operand check given the scan call
-		operand func(scan *ast.CallExpr, rhs ast.Expr) bool
-	}
-	scannedVar := func(scan *ast.CallExpr, o types.Object) bool {
-		for _, a := range scan.Args {
-			if u, ok := ast.Unparen(a).(*ast.UnaryExpr); ok && u.Op == token.AND {
-				if kit.ObjOf(info, u.X) == o {
-					return true
-				}
-				if sel, ok := ast.Unparen(u.X).(*ast.SelectorExpr); ok && kit.ObjOf(info, sel.X) == o {
-					return true
-				}
-			}
-		}
-		return false
+		// operand: is rhs the per-row contribution, given the variables filled from the row
+		operand func(row map[types.Object]bool, rhs ast.Expr) bool
 	}
 	folds := []fold{
 		{"existing node points", func(s *kit.SQLSite) bool {
 			return s.HasVerb("SELECT", "node_points") && len(s.Stmts[0].Where) == 1 && s.Stmts[0].Where[0] == "node_id"
-		}, func(scan *ast.CallExpr, rhs ast.Expr) bool {
+		}, func(row map[types.Object]bool, rhs ast.Expr) bool {
 			call, ok := ast.Unparen(rhs).(*ast.CallExpr)
 			if !ok || !kit.CallIs(info, call, dataPkg+".(Point).CRC") {
 				return false
 			}
 			sel, ok := ast.Unparen(call.Fun).(*ast.SelectorExpr)
-			return ok && scannedVar(scan, kit.ObjOf(info, sel.X))
+			return ok && row[kit.ObjOf(info, sel.X)]
 		}},
 		{"existing child edge hashes", func(s *kit.SQLSite) bool {
 			return s.HasVerb("SELECT", "edges") && len(s.Stmts[0].Where) == 1 && s.Stmts[0].Where[0] == "up" &&
 				(contains(s.Stmts[0].Cols, "hash") || contains(s.Stmts[0].Cols, "*"))
-		}, func(scan *ast.CallExpr, rhs ast.Expr) bool {
-			if o := kit.ObjOf(info, rhs); o != nil && scannedVar(scan, o) {
+		}, func(row map[types.Object]bool, rhs ast.Expr) bool {
+			if o := kit.ObjOf(info, rhs); o != nil && row[o] {
 				return true
 			}
 			if sel, ok := ast.Unparen(rhs).(*ast.SelectorExpr); ok && sel.Sel.Name == "Hash" {
@@ -733,49 +720,151 @@ func c03NewEdge(c *kit.Ctx, m *storeModel, hm *hashModel, r5 *kit.Rule) {
 			return false
 		}},
 	}
+	// xorPerRow: the loop body XORs the row's contribution into the delta as a
+	// top-level statement (every row, exactly one statement)
+	xorPerRow := func(fd fold, body *ast.BlockStmt, row map[types.Object]bool) bool {
+		for _, st := range body.List {
+			if x, ok := st.(*ast.AssignStmt); ok && x.Tok == token.XOR_ASSIGN && len(x.Lhs) == 1 && kit.ObjOf(info, x.Lhs[0]) == wl.delta && fd.operand(row, x.Rhs[0]) {
+				return true
+			}
+		}
+		return false
+	}
 	folded := map[string]*ast.CallExpr{}
+	// why a fold was not recognised: "viol:<msg>" for a contradiction, "undec:<msg>" for an unknown spelling
+	diag := map[string]string{}
+	loopDiag := func(fd fold, body *ast.BlockStmt, row map[types.Object]bool) {
+		assigns, xors := 0, 0
+		ast.Inspect(body, func(n ast.Node) bool {
+			if x, ok := n.(*ast.AssignStmt); ok {
+				for _, l := range x.Lhs {
+					if kit.ObjOf(info, l) == wl.delta {
+						assigns++
+						if x.Tok == token.XOR_ASSIGN {
+							xors++
+						}
+					}
+				}
+			}
+			return true
+		})
+		switch {
+		case assigns == 0:
+			diag[fd.name] = "viol:the " + fd.name + " are read at " + f.At(body) + " but not XORed into the delta"
+		case xors == assigns:
+			diag[fd.name] = "viol:the XOR of the " + fd.name + " at " + f.At(body) + " is not one unconditional statement per row over the row's own value"
+		default:
+			diag[fd.name] = "undec:the delta is updated in the loop at " + f.At(body) + " in a form that is not followed"
+		}
+	}
 	for _, fd := range folds {
 		for _, s := range m.sql.Sites {
-			if s.F != f || s.Recv != "tx" || s.Method != "Query" || len(s.Stmts) != 1 || !fd.match(s) {
+			if len(s.Stmts) == 1 && fd.match(s) && s.F != f && s.F.Decl != nil && diag[fd.name] == "" {
+				for _, call := range f.AllCalls(false) {
+					if f.CalleeFunc(call) == s.F {
+						diag[fd.name] = "undec:the " + fd.name + " are read in helper " + s.F.Name + " (not followed)"
+					}
+				}
+			}
+			if s.F != f || len(s.Stmts) != 1 || !fd.match(s) {
 				continue
 			}
-			if len(s.Args) != 1 || kit.ObjOf(info, s.Args[0]) != types.Object(node) {
+			if !strings.HasPrefix(diag[fd.name], "viol:") {
+				diag[fd.name] = "undec:the query at " + f.At(s.Call) + " reads the " + fd.name + ", but the per-row XOR into the delta is not recognised"
+			}
+			onTx := (s.Recv == "tx" && s.Method == "Query") || (s.Recv == "wrapper" && s.TxArg != nil && !kit.IsNilIdent(info, s.TxArg))
+			if !onTx || len(s.Args) != 1 || kit.ObjOf(info, s.Args[0]) != types.Object(node) {
 				continue
 			}
 			as, ok := c.P.Parent(f.File, s.Call).(*ast.AssignStmt)
 			if !ok {
 				continue
 			}
-			rows := kit.ObjOf(info, as.Lhs[0])
-			// for rows.Next() { rows.Scan(..); delta ^= operand }
+			results := map[types.Object]bool{}
+			for _, l := range as.Lhs {
+				if o := kit.ObjOf(info, l); o != nil {
+					results[o] = true
+				}
+			}
 			ast.Inspect(f.Body, func(n ast.Node) bool {
-				fs, ok := n.(*ast.ForStmt)
-				if !ok || fs.Cond == nil {
-					return true
-				}
-				cc, ok := ast.Unparen(fs.Cond).(*ast.CallExpr)
-				if !ok || !kit.CallIs(info, cc, "database/sql.(*Rows).Next") {
-					return true
-				}
-				if sel, ok := ast.Unparen(cc.Fun).(*ast.SelectorExpr); !ok || kit.ObjOf(info, sel.X) != rows {
-					return true
-				}
-				var scan *ast.CallExpr
-				for _, st := range fs.Body.List {
-					ast.Inspect(st, func(x ast.Node) bool {
-						if call, ok := x.(*ast.CallExpr); ok && kit.CallIs(info, call, "database/sql.(*Rows).Scan") {
-							scan = call
-						}
+				switch loop := n.(type) {
+				case *ast.ForStmt:
+					// for rows.Next() { <row variables filled by Scan or a scan helper>; delta ^= operand }
+					if loop.Cond == nil {
 						return true
-					})
-				}
-				if scan == nil {
-					return true
-				}
-				// the XOR must be a top-level statement of the loop body (every row)
-				for _, st := range fs.Body.List {
-					if x, ok := st.(*ast.AssignStmt); ok && x.Tok == token.XOR_ASSIGN && len(x.Lhs) == 1 && kit.ObjOf(info, x.Lhs[0]) == wl.delta && fd.operand(scan, x.Rhs[0]) {
+					}
+					cc, ok := ast.Unparen(loop.Cond).(*ast.CallExpr)
+					if !ok || !kit.CallIs(info, cc, "database/sql.(*Rows).Next") {
+						return true
+					}
+					sel, ok := ast.Unparen(cc.Fun).(*ast.SelectorExpr)
+					if !ok || !results[kit.ObjOf(info, sel.X)] {
+						return true
+					}
+					rows := kit.ObjOf(info, sel.X)
+					row := map[types.Object]bool{}
+					for _, st := range loop.Body.List {
+						ast.Inspect(st, func(x ast.Node) bool {
+							switch v := x.(type) {
+							case *ast.CallExpr:
+								if kit.CallIs(info, v, "database/sql.(*Rows).Scan") {
+									for _, a := range v.Args {
+										if u, ok := ast.Unparen(a).(*ast.UnaryExpr); ok && u.Op == token.AND {
+											if o := kit.ObjOf(info, u.X); o != nil {
+												row[o] = true
+											}
+											if sel, ok := ast.Unparen(u.X).(*ast.SelectorExpr); ok {
+												if o := kit.ObjOf(info, sel.X); o != nil {
+													row[o] = true
+												}
+											}
+										}
+									}
+								}
+							case *ast.AssignStmt:
+								// p, err := scanHelper(rows)
+								if len(v.Rhs) == 1 {
+									if call, ok := ast.Unparen(v.Rhs[0]).(*ast.CallExpr); ok {
+										takesRows := false
+										for _, a := range call.Args {
+											if kit.ObjOf(info, a) == rows {
+												takesRows = true
+											}
+										}
+										if takesRows {
+											for _, l := range v.Lhs {
+												if o := kit.ObjOf(info, l); o != nil && !isErrorType(o.Type()) {
+													row[o] = true
+												}
+											}
+										}
+									}
+								}
+							}
+							return true
+						})
+					}
+					if len(row) > 0 && xorPerRow(fd, loop.Body, row) {
 						folded[fd.name] = s.Call
+					} else {
+						loopDiag(fd, loop.Body, row)
+					}
+				case *ast.RangeStmt:
+					// rowsAsSlice, err := helper(tx, query, id); for _, p := range rowsAsSlice { delta ^= operand }
+					if !results[kit.ObjOf(info, loop.X)] || loop.Value == nil {
+						return true
+					}
+					if _, isSlice := info.TypeOf(loop.X).Underlying().(*types.Slice); !isSlice {
+						return true
+					}
+					row := map[types.Object]bool{}
+					if o := kit.ObjOf(info, loop.Value); o != nil {
+						row[o] = true
+					}
+					if len(row) > 0 && xorPerRow(fd, loop.Body, row) {
+						folded[fd.name] = s.Call
+					} else {
+						loopDiag(fd, loop.Body, row)
 					}
 				}
 				return true
@@ -810,6 +899,10 @@ func c03NewEdge(c *kit.Ctx, m *storeModel, hm *hashModel, r5 *kit.Rule) {
 	for _, fd := range folds {
 		o := r5.Ob(f, nil, "new edge folds "+fd.name, "on every path that inserts an edge, "+fd.name+" of the node are XORed into the delta (one XOR per row) before propagation")
 		switch {
+		case folded[fd.name] == nil && strings.HasPrefix(diag[fd.name], "undec:"):
+			o.Undecided("%s", diag[fd.name][6:])
+		case folded[fd.name] == nil && strings.HasPrefix(diag[fd.name], "viol:"):
+			o.Violation("%s: mirroring or moving a populated node yields a hash that differs from the from-scratch definition", diag[fd.name][5:])
 		case folded[fd.name] == nil:
 			o.Violation("a newly inserted edge does not fold the %s of the node into its initial hash: mirroring or moving a populated node yields a hash that differs from the from-scratch definition", fd.name)
 		case missing[fd.name]:
